@@ -214,3 +214,55 @@ def canonicalise(rel: str, text: str) -> Tuple[str, List[str]]:
     result = ("\n".join(lines), notes)
     _cache[key] = result
     return result
+
+
+# ------------------------------------------------------------------------------ public methods
+PUBLIC_KEY = "__public__"
+
+
+def public_members(tree: ast.Module) -> Dict[str, Dict[str, Dict[str, object]]]:
+    """public (non-dunder, non-private) methods per class with their fingerprints"""
+    out: Dict[str, Dict[str, Dict[str, object]]] = {}
+    for qual, klass in _classes(tree):
+        methods = [n for n in klass.body if isinstance(n, (ast.FunctionDef, ast.AsyncFunctionDef))]
+        entry = {
+            node.name: {"kind": "method", "index": index, "feat": dict(method_features(node))}
+            for index, node in enumerate(methods)
+            if not node.name.startswith("_")
+        }
+        if entry:
+            out[qual] = entry
+    return out
+
+
+def public_rename_map(read_raw, files: List[str]) -> Tuple[Dict[str, str], List[str]]:
+    """new public method name -> pinned name, for methods whose pinned name is unique in the package, has
+    vanished from its class, and whose body is recognisably that of a method the baseline does not know.
+    ``read_raw(rel)`` returns the text of a file of the tree under analysis."""
+    recorded = baseline().get(PUBLIC_KEY)
+    if not recorded:
+        return {}, []
+    known_names = {name for per_class in recorded.values() for members in per_class.values() for name in members}
+    mapping: Dict[str, str] = {}
+    notes: List[str] = []
+    for rel, per_class in recorded.items():
+        if rel not in files:
+            continue
+        text = read_raw(rel)
+        if all(re.search(r"def\s+" + re.escape(name) + r"\s*\(", text) for members in per_class.values() for name in members):
+            continue
+        try:
+            tree = ast.parse(text)
+        except SyntaxError:
+            continue
+        current = public_members(tree)
+        for qual, base_members in per_class.items():
+            now = current.get(qual, {})
+            missing = {n: e for n, e in base_members.items() if n not in now}
+            fresh = {n: e for n, e in now.items() if n not in base_members and n not in known_names}
+            if not missing or not fresh:
+                continue
+            for new, old in _match(missing, fresh).items():
+                mapping[new] = old
+                notes.append(f"{rel}: {qual}.{new} is analysed under its pinned name {qual}.{old}")
+    return mapping, notes
